@@ -309,9 +309,20 @@ def run_check(prop, tier, replay=None):
         p["_want_sample"] = True
     keys = [scenarios.warm_key(p["scenario"]) for p in plans]
     deadline = time.monotonic() + wall
-    results, skipped = pool.run_batch(execute, plans, keys=keys, warm=warm, timeout=CHILD_TIMEOUT,
+    child_timeout = CHILD_TIMEOUT if tier == "quick" else CHILD_TIMEOUT * 2
+    results, skipped = pool.run_batch(execute, plans, keys=keys, warm=warm, timeout=child_timeout,
                                       chunk=6, deadline=deadline)
+    # a run killed for exceeding its wall budget (loaded machine) gets one more chance alone with a
+    # tripled budget; if it still does not finish it stays a harness error (never a pass)
+    retried = 0
+    for n, (index, status, result, wall_run) in enumerate(results):
+        if status != "ok" and isinstance(result, str) and ("wall budget" in result or "died without reporting" in result) and index >= 0:
+            status2, result2 = pool.run_forked(execute, plans[index], child_timeout * 3)
+            retried += 1
+            if status2 == "ok":
+                results[n] = (index, status2, result2, wall_run)
     agg = aggregate(prop, plans, results, report, known)
+    agg["retried_after_timeout"] = retried
     # determinism spot check: re-run a few plans, digests must agree
     ndet = 4 if tier == "quick" else 24
     det_idx = [r[0] for r in results if r[1] == "ok"][:ndet]
@@ -367,6 +378,8 @@ def aggregate(prop, plans, results, report, known):
         agg["execs"] += result["execs"]
         agg["vtime"] += result["vtime"]
         agg["steps"] += result["steps"]
+        agg["max_steps"] = max(agg.get("max_steps", 0), result["steps"])
+        agg["max_wall"] = max(agg.get("max_wall", 0.0), result["wall"])
         agg["wall_child"] += result["wall"]
         agg["ilv"].add(result["ilv"])
         if result["trigger"]:
@@ -432,6 +445,8 @@ def coverage_of(prop, tier, plans, results, skipped, agg, wall_s, ndet, mism):
         "simulated_executions": agg["execs"],
         "simulated_seconds": round(agg["vtime"], 2),
         "loop_steps": agg["steps"],
+        "max_loop_steps_in_one_run": agg.get("max_steps", 0),
+        "max_wall_s_of_one_run": round(agg.get("max_wall", 0.0), 1),
         "runs_per_hour": int(runs / max(wall_s, 1e-6) * 3600),
         "seeds": {"first": plans[0]["seed"] if plans else None, "last": plans[-1]["seed"] if plans else None,
                   "rule": "H('seed', VERIF_SEED, property, tier, i) & 0x7FFFFFFFFFFF, i = 0..n-1", "planned": len(plans),
@@ -442,6 +457,7 @@ def coverage_of(prop, tier, plans, results, skipped, agg, wall_s, ndet, mism):
         "epoch_endings": agg["endings"],
         "abnormal_endings": agg["errors"],
         "determinism_selfcheck": {"plans_rerun": ndet, "digest_mismatches": mism},
+        "runs_retried_after_wall_timeout": agg.get("retried_after_timeout", 0),
         "real_components": REAL_COMPONENTS,
         "stub_components": STUB_COMPONENTS,
         "violating": agg["violating"],
